@@ -7,7 +7,7 @@ import os
 import lib
 from props import enginecorr
 
-CODES = {1: 'result', 2: 'log', 3: 'trace', 4: 'counts'}
+CODES = {1: 'result', 2: 'log', 3: 'trace', 4: 'counts', 5: 'hash'}
 
 
 def ckind(k):
@@ -38,7 +38,7 @@ def literal(case):
             ins = lib.clist([f'({i}, {lib.cval(jkey(op["key"]))})' for i in g['signature']])
             ops.append(f'HCall {ob["graph"]} {{| xc_ins := {ins}; xc_bad := ' + lib.clist([lib.cstr(b) for b in ob['bad']])
                        + '; xc_res := ' + lib.cxres(ob['res']) + '; xc_log := ' + lib.clist([lib.ccall(c) for c in ob['log']])
-                       + '; xc_trace := ' + lib.clist([lib.ctev(e) for e in ob['trace']]) + ' |}')
+                       + '; xc_trace := ' + lib.clist([lib.ctev(e) for e in ob['trace']]) + '; xc_hash := ' + lib.chash(ob.get('hash')) + ' |}')
         elif op['op'] == 'clear':
             ops.append('HClear ' + lib.clist([str(c) for c in ob['cleared']]))
     caches = lib.clist([f'({i}, {ckind(k)})' for i, k in enumerate(case['caches'])])
